@@ -136,7 +136,7 @@ def gen_subblock(rng, name):
         rules.append({"block": name, "sub": True,
                       "pat": [{"p": "lit", "lc": r, "c0": r[0], "nch": len(r)}],
                       "prod": numlit("0b" + format(i, "0%db" % size))})
-    if rng.random() < 0.3:
+    if rng.random() < 0.45:
         # a sub-rule with its own typed parameter, e.g. `#{v: u4}` style immediate
         rules.append({"block": name, "sub": True,
                       "pat": [{"p": "lit", "lc": "%", "c0": "%", "nch": 1},
@@ -163,8 +163,9 @@ def gen_isa(rng):
 # ---------------------------------------------------------------------------
 # programs
 
-def operand_tokens(rng, spec, labels, consts, first):
-    """tokens of one operand for an operand descriptor"""
+def operand_tokens(rng, spec, labels, consts, first, hot=()):
+    """tokens of one operand for an operand descriptor; `hot`: symbol names that
+    collide with rule parameter names (used more often where scoping matters)"""
     kind = spec[0]
     if kind == "reg":
         t = tok("id", spec[1] if rng.random() < 0.9 else rng.choice(REGS), first)
@@ -174,6 +175,10 @@ def operand_tokens(rng, spec, labels, consts, first):
         sb = spec[1]
         c = rng.random()
         subrule_imm = any(r["pat"][0]["lc"] == "%" for r in sb["rules"])
+        if subrule_imm and hot and rng.random() < 0.5:
+            return [tok("op", "%", first)] + name_tokens(rng.choice(list(hot)), True)
+        if subrule_imm and c < 0.08 and labels + consts:
+            return [tok("op", "%", first)] + name_tokens(rng.choice(labels + consts), True)
         if subrule_imm and c < 0.25:
             return [tok("op", "%", first), num_tok(rng, rng.randrange(0, 1 << sb["size"]) if rng.random() < 0.8
                                                     else (1 << sb["size"]), True, "dec")]
@@ -205,7 +210,7 @@ def operand_tokens(rng, spec, labels, consts, first):
     pool = labels + consts
     c = rng.random()
     if pool and c < 0.6:
-        name = rng.choice(pool)
+        name = rng.choice(list(hot)) if hot and rng.random() < 0.4 else rng.choice(pool)
         toks = name_tokens(name, first)
         if rng.random() < 0.25:
             toks += [tok("op", rng.choice(["+", "-", "*", "&"]), True), num_tok(rng, rng.randrange(0, 5), True, "dec")]
@@ -232,7 +237,7 @@ def name_tokens(name, first):
     return toks
 
 
-def instantiate(rng, rule, ops, labels, consts):
+def instantiate(rng, rule, ops, labels, consts, hot=()):
     toks = []
     oi = 0
     pending_ws = False
@@ -243,7 +248,7 @@ def instantiate(rng, rule, ops, labels, consts):
             # the operand descriptor of a literal register is consumed here
             s = part["lc"]
             if oi < len(ops) and ops[oi][0] == "reg" and ops[oi][1] == s:
-                toks += operand_tokens(rng, ops[oi], labels, consts, pending_ws or not toks)
+                toks += operand_tokens(rng, ops[oi], labels, consts, pending_ws or not toks, hot)
                 oi += 1
             else:
                 t = tok("id" if s[0].isalpha() else "op", s, pending_ws or not toks)
@@ -255,7 +260,7 @@ def instantiate(rng, rule, ops, labels, consts):
                 oi += 1
             spec = ops[oi] if oi < len(ops) else ("untyped", 8)
             oi += 1
-            toks += operand_tokens(rng, spec, labels, consts, pending_ws or not toks)
+            toks += operand_tokens(rng, spec, labels, consts, pending_ws or not toks, hot)
             pending_ws = False
     if toks:
         toks[0]["b"] = True
@@ -267,6 +272,18 @@ def gen_program(rng, isa=None):
     nlab = rng.randrange(1, 5)
     labels = ["lab%d" % i for i in range(nlab)]
     consts = ["k%d" % i for i in range(rng.randrange(0, 3))]
+    hot = []
+    if rng.random() < 0.3:
+        # symbols named like rule parameters (a b c d, v in sub-rules): scoping must keep them apart
+        pool = ["a", "a", "b", "b", "c", "v"]
+        nm = rng.choice(pool)
+        labels[rng.randrange(nlab)] = nm
+        hot.append(nm)
+        if consts and rng.random() < 0.6:
+            nm = rng.choice(pool)
+            if nm not in labels:
+                consts[rng.randrange(len(consts))] = nm
+                hot.append(nm)
     items = []
     pending = list(labels)
     rng.shuffle(pending)
@@ -293,7 +310,7 @@ def gen_program(rng, isa=None):
         elif c < 0.75 and isa["top"]:
             rule, ops = rng.choice(isa["top"])
             refs = labels + visible_locals
-            items.append({"k": "instr", "toks": instantiate(rng, rule, ops, refs, consts)})
+            items.append({"k": "instr", "toks": instantiate(rng, rule, ops, refs, consts, hot)})
         elif c < 0.87:
             w = rng.choice([8, 8, 16, 24, 32, 4, 1, -1])
             es = []
@@ -620,6 +637,16 @@ def gen_cascade_isa(rng):
                               {"k": "assign", "name": "r", "e": _cmp("sub", _cmp("sub", var("a"), var("$")), numlit("3"))},
                               {"k": "call", "f": "assert", "args": [_cmp("lor", _cmp("lt", var("r"), _n(-128)), _cmp("gt", var("r"), numlit("127")))]},
                               concat([numlit("0x31"), {"k": "sshort", "e": var("r"), "n": numlit("16")}])]}})
+    if rng.random() < 0.45:
+        # a pc-relative short form next to an absolute long form that has no constraint at all:
+        # with a literal operand the long form is statically known, the short one is not
+        rules.append({"block": "cpu", "sub": False, "pat": [_lit("jr"), {"p": "ws"}, _par("a")],
+                      "prod": {"k": "block", "es": [
+                          {"k": "assign", "name": "r", "e": _cmp("sub", var("a"), var("$"))},
+                          {"k": "call", "f": "assert", "args": [_cmp("land", _cmp("ge", var("r"), _n(-4)), _cmp("le", var("r"), numlit("3")))]},
+                          concat([numlit("0x60"), {"k": "sshort", "e": var("r"), "n": numlit("8")}])]}})
+        rules.append({"block": "cpu", "sub": False, "pat": [_lit("jr"), {"p": "ws"}, _par("a")],
+                      "prod": concat([numlit("0x61"), {"k": "sshort", "e": var("a"), "n": numlit("16")}])})
     if "signed" in fams:
         rules.append({"block": "cpu", "sub": False, "pat": [_lit("adds"), {"p": "ws"}, _par("v", "s", 8)],
                       "prod": concat([numlit("0x40"), var("v")])})
@@ -628,32 +655,66 @@ def gen_cascade_isa(rng):
     rules.append({"block": "cpu", "sub": False, "pat": [_lit("nop")], "prod": numlit("0x00")})
     rules.append({"block": "cpu", "sub": False, "pat": [_lit("ldi"), {"p": "ws"}, _par("v")],
                   "prod": concat([numlit("0x80"), {"k": "sshort", "e": var("v"), "n": numlit("8")}])})
+    # an operand that is a sub-rule with an expression parameter of its own
+    if rng.random() < 0.6:
+        rules.append({"block": "tgt", "sub": True, "pat": [_par("a", "u", 16)], "prod": var("a")})
+        rules.append({"block": "tgt", "sub": True, "pat": [_lit("["), _par("a", "u", 8), _lit("]")],
+                      "prod": concat([numlit("0xee"), var("a")])})
+        rules.append({"block": "cpu", "sub": False, "pat": [_lit("call"), {"p": "ws"}, {"p": "par", "name": "t", "ty": "sub", "n": 0, "sub": "tgt"}],
+                      "prod": concat([numlit("0x50"), var("t")])})
+    # two operands: the second one's text is read in the instruction's scope, not the rule's
+    rules.append({"block": "cpu", "sub": False, "pat": [_lit("mvi"), {"p": "ws"}, _par("v", "u", 8), _lit(","), {"p": "ws"}, _par("a")],
+                  "prod": concat([numlit("0x90"), var("v"), {"k": "sshort", "e": var("a"), "n": numlit("8")}])})
     rng.shuffle(rules)
-    mn = sorted(set(r["pat"][0]["lc"] for r in rules))
+    if rng.random() < 0.4:
+        # the same families spread over several #ruledef blocks (a rule's index is per block)
+        for r in rules:
+            if not r["sub"] and rng.random() < 0.5:
+                r["block"] = "ext"
+    mn = sorted(set(r["pat"][0]["lc"] for r in rules if not r["sub"]))
     return {"rules": rules, "mnemonics": mn}
 
 
 def gen_cascade_program(rng, isa=None):
     isa = isa or gen_cascade_isa(rng)
     labels = ["L%d" % i for i in range(rng.randrange(1, 6))]
+    collide = rng.random() < 0.35
+    if collide:
+        # symbols named like the rules' parameters and locals (a, v, r)
+        labels[rng.randrange(len(labels))] = rng.choice(["a", "v"])
     pending = list(labels)
     rng.shuffle(pending)
     items = []
-    casc = [m for m in isa["mnemonics"] if m in ("ld", "jmp", "br", "adds")]
+    if collide:
+        for nm in ("a", "v", "r"):
+            if nm not in labels and rng.random() < 0.65:
+                items.append({"k": "const", "lvl": 0, "name": nm, "e": {"k": "num", "text": list(str(rng.choice([0, 5, 200])))}})
+    casc = [m for m in isa["mnemonics"] if m in ("ld", "jmp", "br", "adds", "jr")]
     for i in range(rng.randrange(3, 16)):
         c = rng.random()
         if pending and c < 0.25:
             items.append({"k": "label", "lvl": 0, "name": pending.pop()})
         elif c < 0.7:
-            m = rng.choice(casc + casc + ["nop", "ldi"])
+            m = rng.choice(casc + casc + ["nop", "ldi", "mvi"] + (["call", "call"] if "call" in isa["mnemonics"] else []))
             if m == "nop":
                 toks = [tok("id", "nop", True)]
+            elif m == "call":
+                ref = name_tokens(rng.choice(labels), True) if rng.random() < 0.85 else [num_tok(rng, rng.choice([0, 200, 256, 70000]), True)]
+                if rng.random() < 0.3:
+                    ref[0]["b"] = False
+                    ref = [tok("op", "[", True)] + ref + [tok("op", "]", False)]
+                toks = [tok("id", "call", True)] + ref
+            elif m == "mvi":
+                toks = [tok("id", "mvi", True), num_tok(rng, rng.choice([0, 7, 255, 256]), True), tok("op", ",", False)] + \
+                    (name_tokens(rng.choice(labels), True) if rng.random() < 0.8 else [num_tok(rng, rng.randrange(0, 300), True)])
             else:
                 toks = [tok("id", m, True)]
                 c2 = rng.random()
                 if m == "adds":
                     v = rng.choice([-1, -128, -129, 127, 128, 5, -32768, 300])
                     toks += ([tok("op", "-", True), num_tok(rng, -v, False, "dec")] if v < 0 else [num_tok(rng, v, True, "dec")])
+                elif m == "jr" and c2 < 0.5:
+                    toks += [num_tok(rng, rng.choice([0, 2, 4, 6, 8, 12, 16]), True)]
                 elif c2 < 0.7:
                     toks += name_tokens(rng.choice(labels), True)
                     if rng.random() < 0.2:
@@ -673,6 +734,18 @@ def gen_cascade_program(rng, isa=None):
             items.append({"k": "align", "n": rng.choice([16, 32, 64])})
         else:
             items.append({"k": "addr", "n": rng.choice([0x8, 0x10, 0xfe, 0x100, 0x120])})
+    if collide and pending and rng.random() < 0.7:
+        # far forward labels: every reference to them grows after the first pass, so the
+        # labels in between move, and whatever was frozen on the first pass is stale
+        items.append({"k": "res", "n": rng.choice([0x70, 0x100])})
+        back = [it["name"] for it in items if it["k"] == "label"]
+        if back:
+            at = max(i for i, it in enumerate(items) if it["k"] == "label") + 1
+            for _ in range(rng.randrange(1, 3)):
+                lab = rng.choice(back)
+                toks = ([tok("id", "ldi", True)] + name_tokens(lab, True)) if rng.random() < 0.5 else \
+                    ([tok("id", "mvi", True), num_tok(rng, 7, True), tok("op", ",", False)] + name_tokens(lab, True))
+                items.insert(rng.randrange(at, len(items)), {"k": "instr", "toks": toks})
     for lab in pending:
         items.append({"k": "label", "lvl": 0, "name": lab})
     out = []
